@@ -75,6 +75,12 @@ type orcObj struct {
 	RefChain, RefMid, RefMulti, RefEdgeOnly, RefDotted bool
 	// Foreign: at least one reference lives in another file (imported object).
 	Foreign bool
+	// RefFlatAttr: a dotted key continues with a reserved keyword right after this object
+	// and the object is not the first segment (`p.THIS.label: x`, `p.THIS.style.fill: red`).
+	RefFlatAttr bool
+	// Inherited (nested boards): some reference is declared outside the addressed board's
+	// own AST (the board inherits the element from its base board).
+	Inherited bool
 }
 
 type orcEdge struct {
@@ -86,6 +92,12 @@ type orcEdge struct {
 	Attrs              map[string]any
 	SrcHead, DstHead   map[string]any
 	LabelKW            bool
+	// RefCount: number of source references (declaration + `(a -> b)[i]…` index references);
+	// InChain: declared inside a connection chain; Foreign/Inherited as for objects.
+	RefCount  int
+	InChain   bool
+	Foreign   bool
+	Inherited bool
 }
 
 type orcSnap struct {
@@ -96,6 +108,8 @@ type orcSnap struct {
 	byPath    map[string]int
 	Pi        string // π of this board alone (no nested boards)
 	PiSorted  string // the same as a multiset (objects and connections sorted by ID)
+	// NearKeyWithMap: some `…near: v {…}` key of the board carries a map next to its value.
+	NearKeyWithMap bool
 }
 
 var orcTagRe = regexp.MustCompile(`^(L[0-9]+)(\|.*)?$`)
@@ -165,7 +179,17 @@ func orcSnapOf(g *d2graph.Graph) *orcSnap {
 			if ref.Key != nil && ref.KeyPathIndex < len(ref.Key.Path)-1 {
 				if _, res := d2ast.ReservedKeywords[ref.Key.Path[ref.KeyPathIndex+1].Unbox().ScalarString()]; !res {
 					oo.RefMid = true
+				} else if ref.KeyPathIndex > 0 {
+					oo.RefFlatAttr = true
 				}
+			}
+			if g.BaseAST != nil && ref.ScopeAST != nil && ref.ScopeAST != g.BaseAST && g.Parent != nil {
+				oo.Inherited = true
+			}
+			if ref.MapKey.Key != nil && len(ref.MapKey.Key.Path) > 0 && len(ref.MapKey.Edges) == 0 &&
+				ref.MapKey.Key.Path[len(ref.MapKey.Key.Path)-1].Unbox().ScalarString() == "near" &&
+				(ref.MapKey.Value.Map != nil || ref.MapKey.Primary.Unbox() != nil) {
+				s.NearKeyWithMap = true
 			}
 		}
 		oo.RefMulti = nKey > 1
@@ -208,6 +232,18 @@ func orcSnapOf(g *d2graph.Graph) *orcSnap {
 			ee.Dst = di
 		}
 		ee.LabelKW = orcLabelViaKeyword(e.Label.MapKey)
+		ee.RefCount = len(e.References)
+		for _, ref := range e.References {
+			if ref.MapKey != nil && len(ref.MapKey.Edges) > 1 {
+				ee.InChain = true
+			}
+			if ref.Edge != nil && ref.Edge.Range.Path != "index.d2" {
+				ee.Foreign = true
+			}
+			if g.BaseAST != nil && ref.ScopeAST != nil && ref.ScopeAST != g.BaseAST && g.Parent != nil {
+				ee.Inherited = true
+			}
+		}
 		ee.Tag = orcTagOf(pe.Attrs)
 		if ee.Tag != "" {
 			tagCount[ee.Tag]++
@@ -1164,6 +1200,11 @@ type orcStep struct {
 	Refused *d2graph.Graph
 	Files   map[string]string
 	FS      fstest.MapFS
+	// Trigger: the root-cause trigger predicate that holds on (operation, pre-state), ""
+	// when none does; Plain: a plain operation (see oracle_trigger.go). Both are evaluated
+	// before the edit is applied.
+	Trigger string
+	Plain   bool
 }
 
 func (s *orcStep) describe() string {
@@ -1326,6 +1367,14 @@ func orcRun(in gen.EditCase, res *run.Result, h orcHooks) {
 		}
 		st.snapAll()
 		step := &orcStep{I: i, Op: op, Call: call, Pre: st, Files: in.Files, FS: fs}
+		step.Trigger = orcTrigger(step, h.ID)
+		step.Plain = step.Trigger == "" && orcPlain(step)
+		if step.Plain {
+			res.Inc("plain_ops")
+		}
+		if step.Trigger != "" {
+			res.Inc("trigger_" + step.Trigger)
+		}
 		if h.Before != nil {
 			h.Before(step, res)
 		}
